@@ -178,4 +178,17 @@ pub fn run(r: &mut Runner) {
             }
         });
     }
+    {
+        let gs = crate::fx::generic_stream(if quick { 20000 } else { 2000000 }, 112, -450, 449);
+        let ngs = gs.len();
+        r.notes.push(format!("generic stream for to_degrees/to_radians: {} operands of a fixed Weyl sequence (full-size mantissas in both words, exponents -450..449)", ngs));
+        r.par("generic stream: to_degrees/to_radians", ngs.div_ceil(256), ngs as u64, |c, l| {
+            for i in (c * 256)..((c + 1) * 256).min(ngs) {
+                for call in 0..2 {
+                    let v = judge_angle(call, gs[i], Some(l));
+                    rec.record(l, (1u64 << 58) + (i * 2 + call) as u64, v);
+                }
+            }
+        });
+    }
 }
